@@ -436,8 +436,243 @@ def run_races(rng, quick):
     return races, res, bad, errors
 
 
+# ------------------------------------------------- probe histories (the real utils.cached)
+
+N_PROBE_OBJS, N_PROBE_ARGS = 9, 8
+PROBE_NAMES = ["0", "''", "(None, None)", "(1, 2)", "False", "()", "0.0", "'unknown'", "[None]"]
+PROBE_CORPUS = [
+    # a result None is memoised like any other; other falsy results too
+    {"probe": {"res": [-1, 0, 1, 2, 3, 4, 5, -1], "cmds": [["C", 0], ["C", 0], ["C", 0]]}},
+    {"probe": {"res": [-1, 0, 1, 2, 3, 4, 5, -1],
+               "cmds": [["C", 0], ["C", 1], ["C", 2], ["C", 3], ["C", 4], ["C", 5], ["C", 6], ["C", 7], ["C", 0], ["C", 1],
+                        ["C", 2], ["C", 3], ["C", 4], ["C", 5], ["C", 6], ["C", 7], ["I"], ["C", 7], ["C", 7], ["C", 0]]}},
+    {"probe": {"res": [3, -1, -1, 7, 8, 6, 2, 0], "cmds": [["I"], ["C", 1], ["I"], ["C", 1], ["C", 1], ["I"], ["I"], ["C", 2], ["C", 1]]}},
+]
+
+
+def gen_probe(rng):
+    res = [(-1 if rng.random() < 0.45 else rng.randrange(N_PROBE_OBJS)) for _ in range(N_PROBE_ARGS)]
+    hot = [rng.randrange(N_PROBE_ARGS) for _ in range(rng.randint(1, 3))]
+    cmds = []
+    for _ in range(rng.randint(2, 14)):
+        u = rng.random()
+        if u < 0.15:
+            cmds.append(["I"])
+        else:
+            cmds.append(["C", rng.choice(hot) if rng.random() < 0.75 else rng.randrange(N_PROBE_ARGS)])
+    return {"probe": {"res": res, "cmds": cmds}}
+
+
+def mres(c):
+    return "None" if c < 0 else "(Some %s)" % core.z(c)
+
+
+def probe_term(c, r):
+    pr = c["probe"]
+    return "{| p_body := %s; p_cmds := %s; p_runs := %s; p_vals := %s |}" % (
+        core.coq_list(pr["res"], mres),
+        core.coq_list(pr["cmds"], lambda o: "MInval" if o[0] == "I" else "MCall %d%%nat" % o[1]),
+        core.coq_list(r["rows"], lambda x: "%d%%nat" % x["runs"]),
+        core.coq_list(r["rows"], lambda x: "None" if x["val"] == "-" else "(Some %s)" % mres(x["val"])))
+
+
+def eval_probes(cases, tag="c15p"):
+    impl = core.run_impl_parallel("impl_c15.py", cases)
+    rep, errors = core.coq_shards(tag, HEADER, [probe_term(c, r) for c, r in zip(cases, impl)], "pcase",
+                                  "preport cases", shard=150)
+    codes = [0] * len(cases)
+    if len(rep) != len(cases) and not errors:
+        errors.append(f"Coq reported {len(rep)} results for {len(cases)} probe cases")
+    for idx, v in rep:
+        codes[idx] = v
+    return codes, errors, impl
+
+
+def shrink_probe(case):
+    cur = case
+    for _ in range(30):
+        cmds = cur["probe"]["cmds"]
+        cands = [{"probe": {"res": cur["probe"]["res"], "cmds": cmds[:k] + cmds[k + 1:]}} for k in range(len(cmds))
+                 if len(cmds) > 1]
+        if not cands:
+            break
+        codes, errors, _ = eval_probes(cands, tag="c15ps")
+        nxt = next((c for c, code in zip(cands, codes) if code >= 2), None)
+        if nxt is None or errors:
+            break
+        cur = nxt
+    # only the results of the argument tuples still used matter: make the others plain
+    used = {o[1] for o in cur["probe"]["cmds"] if o[0] == "C"}
+    plain = {"probe": {"res": [r if k in used else 0 for k, r in enumerate(cur["probe"]["res"])],
+                       "cmds": cur["probe"]["cmds"]}}
+    codes, errors, _ = eval_probes([plain], tag="c15ps")
+    return plain if not errors and codes[0] >= 2 else cur
+
+
+def describe_probe(c):
+    pr = c["probe"]
+    return "cached probe: " + ", ".join(
+        "invalidate" if o[0] == "I" else "call#%d->%s" % (o[1], "None" if pr["res"][o[1]] < 0 else PROBE_NAMES[pr["res"][o[1]]])
+        for o in pr["cmds"])
+
+
+# ------------------------------------- swap toggles scheduled against get_cell_size
+
+SW_ENVS = [dict(E0, xc=0), dict(E1), dict(E0, xc=0, pres=9), dict(E0, io=0, xc=0, xa=1, pres=3)]
+SW_SIZES = [[80, 24, 800, 960], [100, 30, 1000, 600], [132, 43, 1320, 1720], [80, 24, 1000, 487]]
+
+
+def swap_sched(f0, warm, prog, point):
+    """the deterministic schedule of the real threads, in the model's micro-steps (picks of a blocked or
+    finished thread are no-ops in run_sched)"""
+    n = len(prog)
+    rest_a, all_b = [0] * (5 * n), [1] * 5
+    if point[0] == "before":
+        return all_b + rest_a
+    if point[0] == "after":
+        return rest_a + all_b
+    if point[0] == "ioctl":   # thread 1 first; thread 0 runs while thread 1 is in its ioctl (only on a miss)
+        return all_b + rest_a if warm else [1, 1] + rest_a + [1, 1, 1] + rest_a
+    steps, flag, eff = 0, f0, 0
+    for b in prog:
+        if b == flag:
+            steps += 1
+            continue
+        if eff == point[1]:
+            return [0] * (steps + (2 if point[0] == "acq" else 5)) + all_b + rest_a
+        steps, flag, eff = steps + 5, b, eff + 1
+    return rest_a + all_b      # the event never happens: thread 1 runs afterwards
+
+
+def all_swaps(rng, quick):
+    progs = [[1], [0], [1, 0], [0, 1], [1, 1, 0], [0, 1, 0], [1, 0, 1]]
+    points = [["before"], ["after"], ["ioctl"], ["acq", 0], ["rel", 0], ["acq", 1], ["rel", 1], ["rel", 2]]
+    out = []
+    for prog in progs:
+        for f0 in (0, 1):
+            for warm in (0, 1):
+                for point in points:
+                    if point[0] in ("acq", "rel") and point[1] >= len(prog):
+                        continue
+                    out.append({"f0": f0, "warm": warm, "prog": prog, "point": point})
+    if quick:   # every (single-toggle x point) combination, and a sample of the rest
+        single = [c for c in out if len(c["prog"]) == 1]
+        rest = [c for c in out if len(c["prog"]) > 1]
+        out = single + rng.sample(rest, 40)
+    cases = []
+    for i, c in enumerate(out):
+        k = rng.randrange(len(SW_ENVS)) if not quick or i % 3 else 0
+        cases.append({"swap": dict(c, env=SW_ENVS[k], t0=SW_SIZES[rng.randrange(len(SW_SIZES)) if i % 2 else 0])})
+    return cases
+
+
+def swap_term(c, r):
+    sw = c["swap"]
+    return ("{| s_f0 := %s; s_warm := %s; s_prog := %s; s_sched := %s; s_flag := %s; s_cache := %s; s_bret := %s; "
+            "s_ncomp := %d%%nat; s_after := %s; s_fresh := %s |}" % (
+                b(sw["f0"]), b(sw["warm"]), core.coq_list(sw["prog"], lambda x: "WToggle " + b(x)),
+                core.coq_list(swap_sched(sw["f0"], sw["warm"], sw["prog"], sw["point"]), lambda x: "%d%%nat" % x),
+                b(r["flag"]), core.z(r["cache"]), core.z(r["bret"]), r["ncomp"], zl(r["after"]), zl(r["fresh"])))
+
+
+def eval_swaps(cases, tag="c15w"):
+    impl = core.run_impl_parallel("impl_c15.py", cases, chunk=8)
+    rep, errors = core.coq_shards(tag, HEADER, [swap_term(c, r) for c, r in zip(cases, impl)], "scase",
+                                  "sreport cases", shard=150)
+    codes = [0] * len(cases)
+    if len(rep) != len(cases) and not errors:
+        errors.append(f"Coq reported {len(rep)} results for {len(cases)} swap schedules")
+    for idx, v in rep:
+        codes[idx] = v
+    for c, r in zip(cases, impl):
+        if r["errors"]:
+            errors.append("swap schedule %r: %s" % (c["swap"]["point"], r["errors"]))
+    return codes, errors, impl
+
+
+def describe_swap(c):
+    sw = c["swap"]
+    where = {"before": "before thread 0 starts", "after": "after thread 0 finished",
+             "ioctl": "first, thread 0 running while thread 1 is inside its ioctl (lock held)"}.get(sw["point"][0]) or \
+        ("when thread 0 %s of its effective toggle #%d" % (
+            "is about to acquire _cell_size_lock" if sw["point"][0] == "acq" else "has just released _cell_size_lock", sw["point"][1]))
+    return "swap=%s, cache %s, %dx%d %dx%dpx: thread 0: %s; thread 1: get_cell_size() %s; then get_cell_size()" % (
+        bool(sw["f0"]), "warm" if sw["warm"] else "cold", *sw["t0"],
+        ", ".join("enable_win_size_swap()" if x else "disable_win_size_swap()" for x in sw["prog"]), where)
+
+
+def run_probes_and_swaps(ctx, rng, only=None):
+    """-> (mismatches, failures, errors, extra)"""
+    mismatches, failures, errors, extra = [], [], [], {}
+    if only is None or "probe" in only:
+        pcases = [only] if only else copy.deepcopy(PROBE_CORPUS) + [gen_probe(rng) for _ in range(150 if ctx.quick else 3000)]
+        codes, perr, impl = eval_probes(pcases)
+        errors += perr
+        none_again = 0
+        for c, r in zip(pcases, impl):
+            seen = set()
+            for o, row in zip(c["probe"]["cmds"], r["rows"]):
+                if o[0] == "I":
+                    seen = set()
+                elif o[1] in seen:
+                    none_again += c["probe"]["res"][o[1]] < 0
+                else:
+                    seen.add(o[1])
+        extra["probe_histories"] = len(pcases)
+        extra["probe_calls_again_in_epoch_with_result_None"] = none_again
+        done = 0
+        for c, code, r in zip(pcases, codes, impl):
+            if code >= 2:
+                small = shrink_probe(c) if done < 1 else c
+                done += 1
+                if done > 3:
+                    continue
+                codes2, _, impl2 = eval_probes([small], tag="c15ps")
+                failures.append({
+                    "signature": core.sig(small),
+                    "what": "a function memoised by utils.cached ran its body more than once for one argument tuple within "
+                            "one invalidation epoch (or returned something else than the body's result): " + describe_probe(small),
+                    "replay": {"probe": small["probe"], "observed": impl2[0], "code": codes2[0]}})
+            elif code:
+                mismatches.append({"probe": c["probe"], "code": code, "observed": r})
+    if only is None or "swap" in only:
+        scases = [only] if only else all_swaps(rng, ctx.quick)
+        codes, serr, impl = eval_swaps(scases)
+        errors += serr
+        extra["swap_schedules"] = len(scases)
+        extra["swap_schedules_hook_fired"] = sum(r["fired"] for r in impl)
+        extra["swap_schedules_swapped_differs"] = sum(r["distinct"] for r in impl)
+        pts = {}
+        for c in scases:
+            pts[c["swap"]["point"][0]] = pts.get(c["swap"]["point"][0], 0) + 1
+        extra["swap_schedule_points"] = pts
+        done = 0
+        for c, code, r in sorted(zip(scases, codes, impl), key=lambda x: len(x[0]["swap"]["prog"])):
+            if code >= 2:
+                done += 1
+                if done > 3:
+                    continue
+                sw = c["swap"]
+                failures.append({
+                    "signature": core.sig({k: sw[k] for k in ("f0", "warm", "prog", "point")}),
+                    "what": "after a win-size-swap toggle returned, get_cell_size() is not the fresh value for the current "
+                            "setting under this schedule of two threads: " + describe_swap(c),
+                    "replay": {"swap": sw, "observed": r, "code": code}})
+            elif code:
+                mismatches.append({"swap": c["swap"], "code": code, "observed": r})
+    return mismatches, failures, errors, extra
+
+
 def run(ctx):
     rng = ctx.rng
+    if ctx.replay and ("probe" in ctx.replay["replay"] or "swap" in ctx.replay["replay"]):
+        rc = ctx.replay["replay"]
+        only = {"probe": rc["probe"]} if "probe" in rc else {"swap": rc["swap"]}
+        mismatches, failures, errors, extra = run_probes_and_swaps(ctx, rng, only)
+        return {"corr_name": "replay of a probe history / swap schedule", "evaluations": 1, "distinct_nontrivial": 1,
+                "rule": "replay", "samples": [describe_probe(only) if "probe" in only else describe_swap(only)],
+                "histogram": {}, "mismatches": mismatches, "failures": failures, "errors": errors,
+                "assumptions": [], "trusted": [], "extra": extra}
     if ctx.replay:
         cases = [ctx.replay["replay"]["case"]]
     else:
@@ -528,6 +763,12 @@ def run(ctx):
             else:
                 mismatches.append(item)
         extra["thread_races"] = len(races)
+        # sequential histories of a probe under the real utils.cached; swap toggles scheduled against get_cell_size
+        m2, f2, e2, x2 = run_probes_and_swaps(ctx, rng)
+        mismatches += m2
+        failures += f2
+        errors += e2
+        extra.update(x2)
     return {
         "corr_name": "Caches.trace (model) == real term_image getters/toggles over a scripted terminal; "
                      "Caches.spec_trace (fresh computations under provenance) == observed",
